@@ -50,10 +50,13 @@ ASSETS = {
     # the class has no Media of its own: it inherits the Media of an intermediate parent that says extend=False
     # (so the grandparent's base.js is NOT part of it, the parent's own files are)
     6: dict(js=True, css=False, mjs=("own",), mcss={"all": ("own",)}, base=False, via_parent=True),
+    # the class overrides only ONE member of an inline pair of its parent: own js, the parent's css (the parent's js is not delivered)
+    7: dict(js=True, css=False, mjs=(), mcss={}, base=False, inline_parent=True),
 }
 BASE_MEDIA_JS = ("base.js",)
-NAMES = [("Plain", "Other"), ("with_underscore9", "Plain"), ("Größe", "Plain"), ("Plain", "名前"), ("Same", "Same")]
-COMBOS_A = [(3, 0), (0, 3), (1, 2), (3, 4), (4, 3), (1, 1), (3, 5), (5, 4), (6, 3)]
+NAMES = [("Plain", "Other"), ("with_underscore9", "Plain"), ("Größe", "Plain"), ("Plain", "名前"), ("Same", "Same"),
+         ("Größe", "Grüße"), ("按钮", "表格")]  # related names: equal length, differing only in non-ASCII letters
+COMBOS_A = [(3, 0), (0, 3), (1, 2), (3, 4), (4, 3), (1, 1), (3, 5), (5, 4), (6, 3), (7, 2)]
 WRAPPERS = ("none", "html", "placeholders", "html+css_placeholder", "html+js_placeholder")
 
 
@@ -76,6 +79,8 @@ def class_assets(letter, spec_id):
     mcss = {m: tuple((f"{letter}.css" if f == "own" else f) for f in fs) for m, fs in a["mcss"].items()}
     if a["base"]:
         mjs = mjs + BASE_MEDIA_JS
+    if a.get("inline_parent"):
+        css = f".C_par_{letter}{{}}"
     return js, css, mjs, mcss
 
 
@@ -119,6 +124,9 @@ def build_classes(prog, combo, names):
                     m["css"] = {k: [(f"{letter}.css" if f == "own" else f) for f in fs] for k, fs in a["mcss"].items()}
             attrs["Media"] = type("Media", (), m)
         parent = base if a["base"] else Component
+        if a.get("inline_parent"):
+            parent = type("Par_" + letter, (Component,), {"template": "", "__module__": "verif_c04_m%d" % i,
+                                                          "js": f"J_par_{letter}();", "css": f".C_par_{letter}{{}}"})
         if a.get("via_parent"):
             parent = type("Mid_" + letter, (base,), {"template": "", "__module__": "verif_c04_m%d" % i,
                                                      "Media": type("Media", (), dict({k: v for k, v in attrs.pop("Media").__dict__.items() if not k.startswith("__")}, extend=False))})
